@@ -58,7 +58,7 @@ Record rec := mkrec {
   r_ct : N;            (* value type of the content *)
   r_val : skey;        (* the content as sort attribute *)
   r_created : Z; r_updated : Z; r_expiry : Z;      (* UnixNano, 0 = not set *)
-  r_fc : bool; r_fu : bool; r_fe : bool            (* sticky createdAt/modifiedAt/expiration "changed" flags *)
+  r_fc : bool; r_fu : bool; r_fe : bool            (* createdAt/modifiedAt/expiration "changed" flags of the last save *)
 }.
 
 Inductive fam := FKey | FCreated | FUpdated | FExpiry | FValue.
@@ -168,8 +168,9 @@ Fixpoint remove_rec (k : skey) (rs : list rec) : list rec :=
 Definition opt_or (o : option Z) (d : Z) : Z := match o with Some z => z | None => d end.
 Definition is_some {X} (o : option X) : bool := match o with Some _ => true | None => false end.
 
-(* which indexes SaveFunction's modified branch refreshes for record [r]: the sticky "changed"
-   flags of the treasure (contentChanged is raised by the first SetContent* and never reset;
+(* which indexes SaveFunction's modified branch refreshes for record [r]: the "changed" flags
+   the setters of this save raised (the swamp resets them after every save – ResetChangeFlags;
+   a Set/patch always rewrites the content, so the value index is always refreshed;
    contentTypeChanged is not raised by the gateway's Set). Legacy: the expiry index only. *)
 Definition refreshed (legacy : bool) (r : rec) (f : fam) : bool :=
   match f with
@@ -193,7 +194,7 @@ Definition do_set (legacy : bool) (s : st) (k : skey) (ct : N) (v : skey) (c u e
               (fun f => if legacy && fam_eqb f FValue then true else has_attr f (vtype s) r) k
   | Some old =>
       let r := mkrec k ct v (opt_or c (r_created old)) (opt_or u (r_updated old)) (opt_or e (r_expiry old))
-                     (r_fc old || is_some c) (r_fu old || is_some u) (r_fe old || is_some e) in
+                     (is_some c) (is_some u) (is_some e) in
       let rs' := replace_rec r (recs s) in
       (* modified branch: drop the stale entry, re-add it under the new attribute if it has one *)
       upd_all s rs' (resort false rs') (refreshed legacy r)
@@ -332,7 +333,11 @@ Inductive op :=
    is observed and passed in; SetExpiredAt z is [Some z]; ClearExpiredAt is [Some 0]
    (SetExpirationTime(zero time) stores 0 and raises the expiration-changed flag), so the record
    stops carrying the expiry attribute. IncrementInt64 is [OSet k 7 [new value] None None None];
-   ShiftExpiredTreasures is an [ODel] of every record it returned (deleteHandler). *)
+   ShiftExpiredTreasures is an [ODel] of every record it returned (deleteHandler).
+   PatchExpiredTreasures is an [OPatch k None u e] for every record it reports PATCHED (c = None:
+   never a create); its own choreography on the expiry beacons (remove the selection from DESC,
+   Save, ReindexExpiration on ASC, re-add to DESC) is not transcribed – it must leave both expiry
+   beacons as the per-record refresh leaves them, which the correspondence check observes. *)
 Definition OPatch (k : skey) (c u e : option Z) : op := OSet k 0%N [] c u e.
 
 Definition step (legacy : bool) (s : st) (o : op) : st * option (option (list skey)) :=
